@@ -376,6 +376,10 @@ def alphabet(S, A, unit, sectors, lean=False):
     if not lean:
         ops.append(("tell",))
         ops.append(("disturb", 4096 + 123, 1000))
+    if sectors and not lean:
+        # a request that cannot be served (runs far past the end of the disk): whatever it does -- raise or return short --
+        # later operations must not be affected by it
+        ops.append(("fail_sectors", max(0, S // 512 - 1), 70000))
     if sectors:
         ns = S // 512
         ops += [("read_sectors", s, c) for s, c in ((0, 1), (max(0, u // 512 - 1), 2), (ns - 1, 1))]
@@ -394,6 +398,12 @@ def _handles(stream):
 
 def _apply_impl(stream, reader, op):
     k = op[0]
+    if k == "fail_sectors":
+        try:
+            reader(op[1], op[2])
+        except Exception:
+            pass
+        return None
     if k == "disturb":
         # the owner of the underlying handle(s) uses them between two calls (e.g. hashes the evidence file)
         for fh in _handles(stream):
@@ -423,7 +433,7 @@ def _apply_impl(stream, reader, op):
 
 
 def _apply_model(m, op):
-    if op[0] == "disturb":
+    if op[0] in ("disturb", "fail_sectors"):
         return None
     if op[0] == "read_sectors":
         return m.disk.content(op[1] * 512, op[2] * 512)
